@@ -9,7 +9,7 @@ from .. import gens
 from ..trace import Trace
 
 RULE = ("Cases: signals of 48..512 samples (tones, AM/FM, noise, walk, levels) x mask frequency source {'zc','if', float, "
-        "list} x amplitude mode {abs, ratio_sig, ratio_imf} x scalar / array mask_amp (positive, zero and negative, i.e. sign-flipped masks) x mask_step_factor in [1.5,4] x "
+        "list} x amplitude mode {abs, ratio_sig, ratio_imf} x scalar / array mask_amp (positive, zero and negative, i.e. sign-flipped masks) x mask_step_factor in {1, 1.5, 2, 3, 4} x "
         "nphases 1..8 x nprocesses 1..8 x IMF options. Oracle (executable specification): get_next_imf_mask(x,z,a,P) == "
         "mean over p<P of [get_next_imf(x + a*cos(2pi z t + 2pi p/P)) - a*cos(...)] (1e-12 rel), flag == any member flag; "
         "mask_sift == the specified loop (frequency ladder z/step^i or the user's list, amplitude rule per mode, "
@@ -121,7 +121,7 @@ def sift_case(draw):
         amp = np.array([1.0, -0.5, 2.0, -1.5, 0.7, 1.0, 1.0, 1.0, 1.0])
     opts = draw(st.sampled_from([None, {'stop_method': 'fixed', 'max_iters': 4}, {'sd_thresh': 0.2}]))
     return {'sig': sig, 'freqs': freqs, 'mode': draw(st.sampled_from(['abs', 'ratio_sig', 'ratio_imf'])), 'amp': amp,
-            'step': draw(st.sampled_from([1.5, 2, 2.0, 3, 4.0])), 'nphases': draw(st.integers(1, 8)),
+            'step': draw(st.sampled_from([1.5, 2, 2.0, 3, 4.0, 1, 1.0])), 'nphases': draw(st.integers(1, 8)),
             'nproc': draw(st.integers(2, 8)), 'max_imfs': draw(st.integers(1, 6)), 'opts': opts,
             'stage': draw(st.integers(0, len(STAGE_OPTS) - 1))}
 
